@@ -192,6 +192,10 @@ def gURet (acc : Bool) (g : Gen) : Option Gen :=
 
 def gUCtx (g : Gen) : Option Gen := if g.closed then some g else none
 
+/-- `nextGeneration` is returning `(m, e)` now -/
+def returnsNow (s : St) (m : String) (e : Option Err) : Bool :=
+  s.pc == .retp m e || ((s.pc == .assigning || s.pc == .fetching) && m == s.jm && e == some .net)
+
 def step (c : Cfg) (s : St) : Ev → Option St
   | .connectRes e =>
     match s.pc with
@@ -270,7 +274,10 @@ def step (c : Cfg) (s : St) : Ev → Option St
       if isCur s g && s.cur.closeCanReturn r then some { s with pc := .retp s.jm ret } else none
     | _ => none
   | .nextGenRet m e =>
-    if s.pc == .retp m e then
+    -- besides the returns prepared by a coordinator answer (`retp`): the leader's assignment step can fail locally
+    -- (selected balancer unknown, member metadata undecodable: `assigning`), and so can decoding the SyncGroup
+    -- assignment (`fetching`, before the OffsetFetch is sent); both return (jm, a non-kafka error)
+    if returnsNow s m e then
       match e with
       | none => some { s with member := m, pc := .coord 0 none }
       | some .closed => some { s with member := m, pc := .leaveP .exit }
